@@ -151,6 +151,13 @@ class Categorize(Factory, Container):
         """Attempt to get key ``x``, returning an alternative if it does not exist."""
         return self.bins.get(x, default)
 
+    def _checkCompatibleContent(self, other):
+        """Bins with disjoint keys are never added pairwise: probe one representative of each side instead."""
+        mine = self.value if self.value is not None else next(iter(self.bins.values()), None)
+        theirs = other.value if other.value is not None else next(iter(other.bins.values()), None)
+        if mine is not None and theirs is not None:
+            mine + theirs  # raises ContainerException if the structures differ at any depth
+
     def _keepContentType(self, out):
         """An immutable container (from JSON or ed) has no value template.
 
@@ -171,6 +178,7 @@ class Categorize(Factory, Container):
                 raise ContainerException(
                     f"cannot add Categorizes because bin type differs ({self.contentType} vs {other.contentType})"
                 )
+            self._checkCompatibleContent(other)
             out = Categorize(self.quantity, self.value)
             out.entries = self.entries + other.entries
             out.bins = {}
@@ -192,6 +200,7 @@ class Categorize(Factory, Container):
                 raise ContainerException(
                     f"cannot add Categorizes because bin type differs ({self.contentType} vs {other.contentType})"
                 )
+            self._checkCompatibleContent(other)
             self.entries += other.entries
             for k in self.keySet.union(other.keySet):
                 if k in self.bins and k in other.bins:
